@@ -427,13 +427,15 @@ def body(case, ctx):
         except UnicodeDecodeError:
             as_text = None
         verdict = None
-        if as_text is not None and as_text == as_text.strip() and as_text[:1] in '{[':
+        stripped = as_text.strip() if as_text is not None else ''
+        bracketed = (stripped[:1], stripped[-1:]) in (('{', '}'), ('[', ']')) and len(stripped) > 1
+        if as_text is not None and as_text == stripped and bracketed:
             try:
                 verdict = 'application/json' if isinstance(json.loads(as_text), (dict, list)) else None
             except ValueError:
-                verdict = 'ambiguous'
-        elif as_text is not None and as_text.strip()[:1] in ('{', '['):
-            verdict = 'ambiguous'
+                verdict = 'ambiguous'          # looks like JSON from both ends but is not: either label
+        elif as_text is not None and bracketed:
+            verdict = 'ambiguous'              # JSON padded with whitespace
         if verdict is None:
             head = rawb[:168]
             if b'<html' in head:
